@@ -490,11 +490,38 @@ func main() {
 	rng := lib.NewRng(f.Seed)
 	out := lib.NewOut("C26", f)
 	out.Imports = "From Verif Require Import Model.Bungee.\n"
-	out.Rule = "dispatch layer: proxy states of 1..3 servers and 1..4 players (10% without server, 2/3 modern connections), requester drawn from the players; sub-channel uniform over the 18 known ones plus unknown/empty names; player arguments known (any case) 70% / unknown 20% / empty 10%, server arguments known 60% / unknown 20% / ALL,ONLINE in several cases 20%; forward payloads well-formed 58%, with trailing bytes, negative int16 length, body or channel shorter than announced, or missing; texts plain, empty, JSON {\"text\":..} and invalid JSON; 20% of all requests cut at a random byte; 4% on a non-BungeeCord channel. adapter layer: well-formed Forward requests to a server / ALL / ONLINE through bungee.go over recording connections. distinct = distinct Coq term; non-trivial = at least one effect (or write) observed, or a panic"
+	out.Rule = "dispatch layer: a pool of 40 proxy states of 1..3 servers and 1..4 players (10% without server, 2/3 modern connections), requester drawn from the players; sub-channel uniform over the 18 known ones plus unknown/empty names; player arguments known (any case) 70% / unknown 20% / empty 10%, server arguments known 60% / unknown 20% / ALL,ONLINE in several cases 20%; forward payloads well-formed 58%, with trailing bytes, negative int16 length, body or channel shorter than announced, or missing; texts plain, empty, JSON {\"text\":..} and invalid JSON; 20% of all requests cut at a random byte; 4% on a non-BungeeCord channel. adapter layer: well-formed Forward requests to a server / ALL / ONLINE through bungee.go over recording connections. distinct = distinct Coq term; non-trivial = at least one effect (or write) observed, or a panic"
+	// a pool of proxy states, defined once per shard file (parsing literals is what costs time in coqc)
+	type pooled struct {
+		st   *stateSt
+		name string
+	}
+	var pool []pooled
+	var defs strings.Builder
+	for i, k := 0, f.Count(40); i < k; i++ {
+		st, _ := genState(rng.Fork())
+		nm := fmt.Sprintf("st_%d", i)
+		pool = append(pool, pooled{st, nm})
+		fmt.Fprintf(&defs, "Definition %s : pstate := %s.\n", nm, st.term())
+	}
+	out.Imports += "Import ListNotations.\nOpen Scope string_scope.\nOpen Scope N_scope.\n" + defs.String()
+	pick := func(r *lib.Rng) (*stateSt, int, string) {
+		p := pool[r.Intn(len(pool))]
+		req := r.Intn(len(p.st.players))
+		if p.st.players[req].server == "" && r.Chance(3, 4) { // requests come from a backend: prefer a connected requester
+			for j := range p.st.players {
+				if p.st.players[j].server != "" {
+					req = j
+					break
+				}
+			}
+		}
+		return p.st, req, p.name
+	}
 	n := f.Count(1000)
 	for i := 0; i < n; i++ {
 		r := rng.Fork()
-		st, req := genState(r)
+		st, req, stName := pick(r)
 		q := genRequest(r, st)
 		channel := r.PickS("BungeeCord", "bungeecord:main", "bungeecord:main", "BUNGEECORD:MAIN", "bungeecord")
 		if r.Chance(1, 25) {
@@ -519,7 +546,7 @@ func main() {
 		if q.hasTxt {
 			oracle = decodeOracle(q.sub, []string{q.text, ""})
 		}
-		term := lib.App("Check.C26.mk", st.term(), lib.Str(fw.req.name), oracle, lib.Str(channel), lib.Bytes(q.data), lib.Bool(handled), lib.List(rec.eff))
+		term := lib.App("Check.C26.mk", stName, lib.Str(fw.req.name), oracle, lib.Str(channel), lib.Bytes(q.data), lib.Bool(handled), lib.List(rec.eff))
 		desc := map[string]any{"layer": "dispatch", "sub": q.sub, "channel": channel, "data_hex": hex.EncodeToString(q.data), "requester": fw.req.name,
 			"requester_server": fw.req.server, "players": fmt.Sprint(st.players), "servers": fmt.Sprint(st.servers), "handled": handled,
 			"effects": rec.n, "panic": panicked}
@@ -532,7 +559,7 @@ func main() {
 	m := f.Count(40)
 	for i := 0; i < m; i++ {
 		r := rng.Fork()
-		st, req := genState(r)
+		st, req, stName := pick(r)
 		target := r.PickS("ALL", "ONLINE", varyCase(r, st.servers[r.Intn(len(st.servers))].name), st.servers[0].name, "nowhere")
 		pb := new(bytes.Buffer)
 		utf(pb, r.PickS("MyChan", "x:y"))
@@ -543,7 +570,7 @@ func main() {
 		if out.Wanted() {
 			obs, nc, nb = runAdapter(st, req, target, pb.Bytes())
 		}
-		term := lib.App("Check.C26.mkA", st.term(), lib.Str(st.players[req].name), lib.Str(target), lib.Bytes(pb.Bytes()), obs)
+		term := lib.App("Check.C26.mkA", stName, lib.Str(st.players[req].name), lib.Str(target), lib.Bytes(pb.Bytes()), obs)
 		desc := map[string]any{"layer": "adapter", "target": target, "payload_hex": hex.EncodeToString(pb.Bytes()), "requester": st.players[req].name,
 			"requester_server": st.players[req].server, "players": fmt.Sprint(st.players), "servers": fmt.Sprint(st.servers),
 			"client_writes": nc, "backend_writes": nb}
